@@ -287,6 +287,13 @@ func RunRegistry(behs [][]Step, tr *Trace, env Env, sum *Summary) {
 						pw = "nope"
 					}
 					s.svcSend(a, map[string]any{"Head": map[string]any{"Type": "Register"}, "Body": map[string]any{"Password": pw}})
+					if b == "bad" {
+						// a client that keeps trying: 0, 2 or 4 more wrong passwords on the same connection (if it is still open)
+						for extra := (si + bi) % 3 * 2; extra > 0; extra-- {
+							time.Sleep(15 * time.Millisecond)
+							s.svcSend(a, map[string]any{"Head": map[string]any{"Type": "Register"}, "Body": map[string]any{"Password": fmt.Sprintf("nope%d", extra)}})
+						}
+					}
 					deadline := time.Now().Add(4 * time.Second)
 					for time.Now().Before(deadline) && len(cl.Frames()) == 0 && !cl.IsClosed() {
 						time.Sleep(5 * time.Millisecond)
